@@ -930,6 +930,10 @@ class Interp:
             mm = self.ex.methods.get((obj.clsname(), name))
             if mm:
                 return BoundMethod(obj, mm)
+            if isinstance(obj.cls, ClassRef) and not (name.startswith("__") and name.endswith("__")):
+                ga = self.find_method(obj.cls, "__getattr__")      # the class's own fallback
+                if ga is not None:
+                    return self.invoke(ga, [obj, name], {})
             self.throw("AttributeError", f"{obj.clsname()} has no attribute {name}")
         if isinstance(obj, SRef):
             hook = self.ex.heap_getattr
